@@ -526,7 +526,18 @@ impl Check for C02 {
         let sink_k = rng.below(4);
         let text = if rng.chance(3, 4) {
             // one text in 150 is a long document (thousands of bytes, hundreds of tokens)
-            let n = if rng.chance(1, 150) { rng.range(500, 1500) } else { rng.range(0, 16) };
+            let n = match rng.below(9000) {
+                // a transcript of ~100 KB (thorough: occasionally over 1 MB)
+                0 => {
+                    if crate::rng::thorough_tier() && rng.chance(1, 8) {
+                        rng.range(150_000, 200_000)
+                    } else {
+                        rng.range(12_000, 16_000)
+                    }
+                }
+                1..=60 => rng.range(500, 1500),
+                _ => rng.range(0, 16),
+            };
             gen_text(rng, pool, &cfg, n)
         } else {
             String::new()
